@@ -80,4 +80,51 @@ theorem refusal_same_as_execute (fuel : Nat) (S : Schema) (o : Oracle) (env : En
       · rename_i hne; simp at h; simp [hne, h]
       · cases h
 
+/-- The source function is started with exactly the argument dictionary CoerceArgumentValues prescribes for the
+    subscription's (first collected) root field — computed from the coerced variables of the request, defaults of
+    omitted arguments included (C05 `omitted_uses_default`) — i.e. the same dictionary the root field's resolver
+    receives in every event's execution (C01 `resolver_called_once_with_parent_and_args` is stated with the very
+    same `coerceArguments` expression). -/
+theorem source_gets_root_field_arguments (fuel : Nat) (S : Schema) (o : Oracle) (env : Env) (doc : Document)
+    (opName : Option String) (rawVars : List (String × PyVal)) (coord : String) (args : List (String × PyVal))
+    (h : sourceArguments fuel S o env doc opName rawVars = some (coord, args)) :
+    ∃ op rt key nodes rest fd,
+      selectOperation doc opName = some op ∧ rootTypeName S op.kind = some rt ∧
+      (collectFields fuel ⟨S, doc, (coerceVariables fuel S o op.varDefs rawVars).1, env, o⟩ rt op.sels ([], [])).1 = (key, nodes) :: rest ∧
+      findFieldDef S rt nodes.head!.fname = some fd ∧ coord = rt ++ "." ++ fd.name ∧
+      coerceArguments fuel S o fd.args nodes.head!.floc nodes.head!.fargs (coerceVariables fuel S o op.varDefs rawVars).1 = .ok args := by
+  unfold sourceArguments at h
+  cases hsel : selectOperation doc opName with
+  | none => simp [hsel] at h
+  | some op =>
+    simp only [hsel] at h
+    cases hrt : rootTypeName S op.kind with
+    | none => simp [hrt] at h
+    | some rt =>
+      simp only [hrt] at h
+      cases hc : (collectFields fuel ⟨S, doc, (coerceVariables fuel S o op.varDefs rawVars).1, env, o⟩ rt op.sels ([], [])).1 with
+      | nil => simp [hc] at h
+      | cons kn rest =>
+        obtain ⟨key, nodes⟩ := kn
+        simp only [hc] at h
+        cases hf : findFieldDef S rt nodes.head!.fname with
+        | none => simp [hf] at h
+        | some fd =>
+          simp only [hf] at h
+          cases ha : coerceArguments fuel S o fd.args nodes.head!.floc nodes.head!.fargs (coerceVariables fuel S o op.varDefs rawVars).1 with
+          | error e => simp [ha] at h
+          | ok a =>
+            simp only [ha, Option.some.injEq, Prod.mk.injEq] at h
+            obtain ⟨h1, h2⟩ := h
+            subst h2
+            exact ⟨op, rt, key, nodes, rest, fd, rfl, hrt, hc, hf, h1.symm, ha⟩
+
+/-- an accepted request yields as many responses as the source produced events (the source is started once; its
+    arguments are fixed before the first event) -/
+theorem accepted_one_response_per_event (fuel : Nat) (S : Schema) (o : Oracle) (env : Env) (doc : Document)
+    (opName : Option String) (rawVars : List (String × PyVal)) (events : List PyVal)
+    (h : preflight fuel S o doc opName rawVars = none) :
+    (subscribeResponses fuel S o env doc opName rawVars events).length = events.length := by
+  simp [subscribeResponses, h]
+
 end Tart.C14
